@@ -318,6 +318,9 @@ func modelErrNew(fc *FnCtx, c *ssa.CallCommon, args []Val, rt types.Type) (*Val,
 	fc.vc.declareFun("cause", []string{"Int"}, "Int")
 	r := fc.newRef()
 	fc.vc.assert(mkEq("(cause "+r+")", r))
+	// ghost: the function (under verification) whose body created this error value
+	fc.vc.declareFun("uf.errOrigin", []string{"Int"}, "Int")
+	fc.vc.assert(mkEq("(uf.errOrigin "+r+")", fc.vc.originID(fc.topCtx().fn.String())))
 	return &Val{T: r, S: SInt, Typ: rt}, nil
 }
 
@@ -385,6 +388,65 @@ func modelLock(fc *FnCtx, kind, method string, args []Val) (*Val, error) {
 
 // sort.Sort -------------------------------------------------------------------------------------
 
+// condExec runs f on the paths where cond holds and merges the result with the state where it does not.
+func (fc *FnCtx) condExec(cond string, tag string, f func() error) error {
+	before := fc.cur.clone()
+	fc.cur.reach = mkAnd(before.reach, cond)
+	if err := f(); err != nil {
+		return err
+	}
+	after := fc.cur
+	before.reach = mkAnd(before.reach, mkNot(cond))
+	fc.cur = fc.mergeStates([]*State{after, before}, []string{after.reach, before.reach}, tag)
+	return nil
+}
+
+// sortThree: sort.Sort on exactly three elements, executed as Go's insertion sort (which pdqsort uses below 12
+// elements) by inlining the collection's own Less and Swap methods.
+func (fc *FnCtx) sortThree(coll Val, collT types.Type) error {
+	fc.vc.trust("sort.Sort on fewer than 12 elements is insertion sort (go1.23 pdqsort), executed here with the collection's own Less/Swap")
+	less := fc.prog.SSA.LookupMethod(collT, nil, "Less")
+	swap := fc.prog.SSA.LookupMethod(collT, nil, "Swap")
+	if less == nil || swap == nil {
+		return unsupportedf("sort.Sort: Less/Swap of %s not found", collT)
+	}
+	lit := func(i int) Val { return Val{T: fmt.Sprintf("%d", i), S: SInt, Typ: types.Typ[types.Int]} }
+	callLess := func(i, j int) (string, error) {
+		v, err := fc.inline(less, []Val{coll, lit(i), lit(j)}, types.Typ[types.Bool])
+		if err != nil {
+			return "", err
+		}
+		n := fc.vc.fresh("less", "Bool")
+		fc.vc.assert(mkEq(n, v.T))
+		return n, nil
+	}
+	callSwap := func(i, j int) error {
+		_, err := fc.inline(swap, []Val{coll, lit(i), lit(j)}, nil)
+		return err
+	}
+	c1, err := callLess(1, 0)
+	if err != nil {
+		return err
+	}
+	if err := fc.condExec(c1, "sort1", func() error { return callSwap(1, 0) }); err != nil {
+		return err
+	}
+	c2, err := callLess(2, 1)
+	if err != nil {
+		return err
+	}
+	return fc.condExec(c2, "sort2", func() error {
+		if err := callSwap(2, 1); err != nil {
+			return err
+		}
+		c3, err := callLess(1, 0)
+		if err != nil {
+			return err
+		}
+		return fc.condExec(c3, "sort3", func() error { return callSwap(1, 0) })
+	})
+}
+
 func modelSortSort(fc *FnCtx, c *ssa.CallCommon, args []Val, rt types.Type) (*Val, error) {
 	// the argument is an interface wrapping a slice type; we cannot see through the wrap in general: havoc the
 	// element component of the wrapped slice type
@@ -397,6 +459,16 @@ func modelSortSort(fc *FnCtx, c *ssa.CallCommon, args []Val, rt types.Type) (*Va
 	if !ok {
 		fc.havocAll()
 		return nil, nil
+	}
+	if top := fc.topCtx(); top.con != nil && top.con.SortLen == 3 {
+		coll, err := fc.val(mi.X)
+		if err != nil {
+			return nil, err
+		}
+		fc.vc.oblige(&Obligation{Name: fc.oblName("pre", "sort.Sort[len3]"), Kind: "pre", Func: shortName(top.fn), Guard: fc.cur.reach,
+			Goal: mkEq(proj("s-len", coll.T), "3"), Desc: "sort.Sort is modelled as 3-element insertion sort here: the collection must have exactly 3 elements"})
+		fc.vc.assume(fc.cur.reach, mkEq(proj("s-len", coll.T), "3"))
+		return nil, fc.sortThree(coll, mi.X.Type())
 	}
 	fc.vc.trust("sort.Sort permutes the elements of its argument (only 'same length, some permutation' is modelled)")
 	s, err := fc.val(mi.X)
@@ -550,6 +622,7 @@ func (fc *FnCtx) execAppend(c *ssa.CallCommon, args []Val, rt types.Type) (*Val,
 	fc.vc.assert(mkEq(newLen, mkAdd(sLen, tLen)))
 	inPlace := fc.vc.fresh("inplace", "Bool")
 	fc.vc.assert(mkEq(inPlace, "(<= "+newLen+" "+sCap+")"))
+	fc.vc.splitCands = append(fc.vc.splitCands, splitCand{term: inPlace, tag: fc.vc.curTag})
 	fresh := fc.newRef()
 	newCap := fc.vc.fresh("appcap", "Int")
 	fc.vc.assert("(>= " + newCap + " " + newLen + ")")
